@@ -572,6 +572,7 @@ def check(prop, tier):
             "bounds": {m["harness"]: m["deviations"] for m in allm},
             "outcome_histogram": {m["harness"]: m["outcomes"] for m in allm},
             "clause_hits": {m["harness"]: m["clause_hits"] for m in allm},
+            "clauses_never_exercised": {m["harness"]: sorted(k for k, v in m["clause_hits"].items() if v == 0) for m in allm},
             "infra_errors": tot["infra_errors"], "replay_determinism_checked": tot["replay_checked"], "replay_mismatch": tot["replay_mismatch"],
             "unknown_symbols": unknown_syms, "other_clauses_failed": other,
             "known_findings_seen": sorted(seen_known.keys()),
@@ -601,6 +602,11 @@ def check(prop, tier):
         tot["infra_errors"], wall))
     for e in errs_all[:5]:
         sys.stderr.write(e[:2000] + "\n")
+    # vacuity guard (Appendix D): an oracle clause that was never exercised says nothing
+    for m in allm:
+        zero = sorted(k for k, v in m["clause_hits"].items() if v == 0)
+        if zero:
+            sys.stderr.write("VACUOUS: %s %s: clause(s) never exercised in this tier: %s\n" % (prop, m["harness"], ", ".join(zero)))
     return rc
 
 
